@@ -22,6 +22,8 @@ FIXES = [
     ("be63835", ["C02", "C04"], 'limited reverse search rejected an empty region: .*co.* on "co\\nco" returned [3 5] (regexp [0 2]), FindAll missed [0 2]'),
     ("32e1f94", ["C02", "C04", "C19"], 'composite sequence DFA accepted cc{2,} and searched it as cc+: [a-z]{2,}[0-9]+ on "a1 ab1" returned [0 2], regexp [3 6]'),
     ("34ebcaa", ["C03", "C10", "C14"], 'PikeVM copy-on-write captures leaked the writes of the preferred branch into the other branch: FindSubmatchIndex of (a)+c$ on "dac" gave [1 3 2 2], regexp [1 3 1 2]; PikeVM.SearchWithCaptures of (a)*c on "dac" gave [[1 3] [2 2]]'),
+    ("ef4094b", ["C02", "C03"], 'reader APIs re-encoded an ill-formed byte as the 3 bytes of U+FFFD: FindReaderIndex of a over "\\xffa" returned [3 4], regexp [1 2]'),
+    ("6119915", ["C01", "C02", "C04", "C19"], 'composite sequence DFA skipped every scanned byte after a failed attempt: [ab]+[12]+[ab]+[xy]+ found no match in "a1b2ax", regexp [2 6] (4 parts with overlapping classes)'),
 ]
 for commit, props, what in FIXES:
     for p in props:
